@@ -981,8 +981,8 @@ Definition delete_node (self : oid) (p : str) : H bool :=
   | None => h_ret false
   end.
 
-(* copy / __copy__ (536-548, 706-717).  Fuel as for iterate_segments.  The children that are
-   copied are ALL the entries of self.children, deleted ones included. *)
+(* copy / __copy__ (536-548, 706-717).  Fuel as for iterate_segments.  Deleted entries of self.children are
+   skipped and every copied child gets the copy as its parent (fix 1aba850). *)
 Fixpoint node_copy (fuel : nat) (o : oid) : H oid :=
   match fuel with
   | 0 => h_raise OtherError
@@ -994,7 +994,12 @@ Fixpoint node_copy (fuel : nat) (o : oid) : H oid :=
           doh kids <- (fix go (cs : list oid) : H (list oid) :=
                          match cs with
                          | [] => h_ret []
-                         | c :: r => doh c' <- node_copy f c; doh more <- go r; h_ret (c' :: more)
+                         | c :: r =>
+                             doh cx <- h_obj c;
+                             if negb (o_live cx) then go r                  (* fix 1aba850: deleted children are skipped *)
+                             else doh c' <- node_copy f c;
+                                  doh_ h_mod c' (fun y => upd_parent y (RObj ret));   (* fix 1aba850: child_copy.parent = ret *)
+                                  doh more <- go r; h_ret (c' :: more)
                          end) (o_children x);
           doh_ h_mod ret (fun y => upd_children y kids);
           h_ret ret
